@@ -22,6 +22,8 @@ import CaddyModel.C12.UniqueLemmas
 import CaddyModel.C12.RegionsProof
 import CaddyModel.C12.CanonLemmas
 import CaddyModel.C12.Witness
+import CaddyModel.C12.WireLemmas
+import CaddyModel.C12.Warn
 
 namespace CaddyModel.C12
 
@@ -1079,5 +1081,178 @@ example : (cliReload loadEnv (.val (.obj [(idKey, .bool true)])) .none false fal
 -- pulled configs: accepted → the document; rejected by the indexer → nothing changes
 example : cfgOf (pulledConfig exEnv (.val .null) exLoaded).1.rawCfg = .null := by decide
 example : pulledConfig exEnv (.val (.obj [(idKey, .bool true)])) exLoaded = (exLoaded, .index) := by decide
+
+/-! ### request targets as they arrive on a connection (Wire.lean): which document path a
+    request addresses -/
+
+/-- **the document path a request addresses is the decoded path**: whatever the spelling of the
+    request target, once the mux (which looks at the escaped path) hands it to the config handler,
+    what runs is `handleConfig` on `URL.Path` as net/url decoded it -/
+theorem wire_request_addresses_decoded_path (env : Env) (r : Req) (s : State) {t p ep : Bytes}
+    (hp : parseTarget t = some (p, ep)) (hr : wireRoute ep = .config) :
+    wireServe env r t s = ((handleConfig env r p s).1, .served (handleConfig env r p s).2) := by
+  simp [wireServe, hp, hr]
+
+/-- two spellings of the same decoded path that both reach the config handler are the same request -/
+theorem wire_spelling_does_not_matter (env : Env) (r : Req) (s : State) {t₁ t₂ p e₁ e₂ : Bytes}
+    (h₁ : parseTarget t₁ = some (p, e₁)) (h₂ : parseTarget t₂ = some (p, e₂))
+    (r₁ : wireRoute e₁ = .config) (r₂ : wireRoute e₂ = .config) :
+    wireServe env r t₁ s = wireServe env r t₂ s := by
+  rw [wire_request_addresses_decoded_path env r s h₁ r₁, wire_request_addresses_decoded_path env r s h₂ r₂]
+
+/-- every byte string has a spelling: net/url's `escape` is undone by its `unescape`, and
+    `EscapedPath()` of the parsed URL is that spelling again (what the mux routes on) -/
+theorem every_path_has_a_spelling (p : Bytes) :
+    unescapePath (escapePath p) = some p ∧ escapedPath (escapePath p) p = escapePath p :=
+  ⟨unescape_escape_eq p, by simp [escapedPath]⟩
+
+def WireResp.rejected : WireResp → Bool
+  | .badRequest => true
+  | .served r => r.rejected
+
+/-- **a rejected request changes nothing — stated at the connection**: refused by net/http (400),
+    redirected or not routed by the mux, or rejected by a handler. `hcfg`: the decoded path of a
+    target routed to the config handler starts with the `config` key (the mux matched the unescaped
+    first segment against it) — checked on every case by the correspondence, decided in the examples -/
+theorem wire_rejected_changes_nothing {env : Env} {s : State} (h : Reachable env s) (r : Req) (t : Bytes)
+    (hcfg : ∀ p ep, parseTarget t = some (p, ep) → wireRoute ep = .config → underConfig p)
+    (hrej : (wireServe env r t s).2.rejected = true) : (wireServe env r t s).1 = s := by
+  have hi := reachable_inv h
+  unfold wireServe at hrej ⊢
+  split
+  · rfl
+  · next p ep hp =>
+    simp only [hp] at hrej
+    split
+    · rfl
+    · rfl
+    · next hr =>
+      simp only [hr] at hrej
+      exact handleConfig_rejected hi (hcfg p ep hp hr) hrej
+    · next hr =>
+      simp only [hr] at hrej
+      exact handleLoad_rejected hi hrej
+    · exact handleAdapt_pure env r s
+    · next hr =>
+      simp only [hr] at hrej
+      split
+      · rfl
+      · rfl
+      · next q hq =>
+        simp only [hq] at hrej
+        split
+        · next hr2 =>
+          simp only [hr2] at hrej
+          exact handleConfig_rejected hi (underConfig_of_prefix (route_config hr2)) hrej
+        · rfl
+        · rfl
+
+/-! ### forced overlap (the ovl op): a writer held inside `changeConfig` while another writer and
+    a reader wait on `rawCfgMu` -/
+
+/-- **every overlapped history is one of the serial orders.** Writer `a` holds the write lock;
+    writer `b` and reader `g` (requests with one critical section each) wait. Whichever of the two
+    the lock admits next, the final state is that of the serial history `a; b`, `a` and `b` get the
+    answers they get in that history, and the reader gets the value as it is after `a` or after
+    `a; b` — never a state in between (e.g. of `a` before its rollback). -/
+theorem overlapped_history_is_a_serial_order (env : Env) (s : State) (a b g : Req)
+    (ha : route a.path ≠ .id) (hb : route b.path ≠ .id) (hg : route g.path ≠ .id) (hm : g.method = .get) :
+    ((regionRun env [(0, a), (1, b), (2, g)] (RSys.start s)).s = serial env [a, b] s ∧
+     (regionRun env [(0, a), (1, b), (2, g)] (RSys.start s)).done =
+       [(0, a, (serve env a s).2), (1, b, (serve env b (serve env a s).1).2), (2, g, (serve env g (serial env [a, b] s)).2)]) ∧
+    ((regionRun env [(0, a), (2, g), (1, b)] (RSys.start s)).s = serial env [a, b] s ∧
+     (regionRun env [(0, a), (2, g), (1, b)] (RSys.start s)).done =
+       [(0, a, (serve env a s).2), (2, g, (serve env g (serve env a s).1).2), (1, b, (serve env b (serve env a s).1).2)]) := by
+  have hr : ∀ t, (serve env g t).1 = t := fun t => read_request_changes_nothing env g t (Or.inl hm)
+  simp [regionRun, regionStep, RSys.start, serial, ha, hb, hg, hr]
+
+-- overlapped_history_…: a PUT held while a DELETE and a GET of the same value wait
+example : route (wReq .put pSlash (.val .null)).path ≠ .id ∧ route (wReq .delete pSlash .empty).path ≠ .id ∧
+    (wReq .get pSlash .empty).method = .get := by decide
+example : (regionRun yesEnv [(0, wReq .put (pSlash.take 18 ++ [47, 122]) (.val .null)), (2, wReq .get (pSlash.take 18) .empty),
+      (1, wReq .delete (pSlash.take 18) .empty)] (RSys.start slashState)).done.map (·.2.2) =
+    [.okWrite, .okGet (some (.obj [([121], .num [50]), ([122], .null)])) (pSlash.take 18), .okWrite] := by decide
+
+/-! ### adapter warnings on /load (Warn.lean) -/
+
+/-- a world with the wrapping adapter whose apps accept only the empty configuration -/
+def warnEnv : Env := ⟨fun _ => [], fun j => j == .null,
+  fun b => match b with
+    | .val j => some (.obj [([97, 112, 112, 115], .obj [([99, 49, 50], j)])])
+    | _ => none⟩
+
+def warnReq : Req := ⟨.post, loadPath, .val (.bool true), [], false, .adapter⟩
+
+/- full statement, violated by the tree: a rejected load is reported as rejected —
+   ∀ env warns r s, (handleLoad env r s).2.rejected = true → loadStatusSeen env warns r s ≠ 200 -/
+
+/-- **a rejected POST /load can be answered 200**: the adapter's warnings are written to the
+    response before `caddy.Load` runs; the load is rejected, nothing changes — and the client
+    reads status 200 -/
+theorem rejected_load_is_reported_full_fails :
+    ∃ (env : Env) (warns : Body → Bool) (r : Req) (s : State), Reachable env s ∧
+      (handleLoad env r s).2.rejected = true ∧ (handleLoad env r s).1 = s ∧ loadStatusSeen env warns r s = 200 :=
+  ⟨warnEnv, fun _ => true, warnReq, initState, .init, by decide, by decide, by decide⟩
+
+/-- … and that is the only way: a rejected load during which no warnings were written is answered
+    with an error status -/
+theorem rejected_load_is_reported_partial (env : Env) (warns : Body → Bool) (r : Req) (s : State)
+    (hw : warnsWritten env warns r = false) (hrej : (handleLoad env r s).2.rejected = true) :
+    loadStatusSeen env warns r s ≠ 200 := by
+  unfold loadStatusSeen
+  simp only [hw]
+  cases h : (handleLoad env r s).2 <;> simp_all [respStatus, Resp.rejected, statusOf_ne_200]
+
+/-- warnings or not, what is loaded is the same: the state after `POST /load` does not depend on
+    what the adapter warns about (it is `handleLoad`'s, in which warnings do not occur), and a load
+    that answers with warnings only is a load like any other -/
+theorem adapter_warnings_do_not_change_the_load (env : Env) (warns : Body → Bool) (r : Req) (s : State)
+    (hok : (handleLoad env r s).2 = .okWrite) : loadStatusSeen env warns r s = 200 := by
+  unfold loadStatusSeen
+  split
+  · rfl
+  · simp [hok, respStatus]
+
+example : warnsWritten warnEnv (fun _ => false) warnReq = false ∧ (handleLoad warnEnv warnReq initState).2.rejected = true := by decide
+example : loadStatusSeen warnEnv (fun _ => false) warnReq initState = 400 := by decide
+example : (handleLoad warnEnv { warnReq with body := .val .null, ct := .json } initState).2 = .okWrite := by decide
+
+/-- a target net/http cannot parse never reaches a handler -/
+theorem wire_unparsable_target_changes_nothing (env : Env) (r : Req) (s : State) {t : Bytes}
+    (h : parseTarget t = none) : wireServe env r t s = (s, .badRequest) := by
+  simp [wireServe, h]
+
+/-- **an encoded slash is a separator**: `/config/apps/c12/x%2Fy` decodes to `…/x/y` and reads the
+    member `y` of `x` (2), not the member `x/y` (1) that the document also has — no spelling of a
+    request target addresses a key containing '/' (cf. the known finding `id-below-unaddressable-key`) -/
+theorem encoded_slash_is_a_separator :
+    parseTarget tEncSlash = some (pSlash, tEncSlash) ∧ wireRoute tEncSlash = .config ∧
+    cfgOf slashState.rawCfg = slashDoc ∧
+    (wireServe yesEnv (wReq .get [] .empty) tEncSlash slashState).2 = .served (.okGet (some (.num [50])) pSlash) := by
+  decide
+
+/-- **the route is decided on the escaped path**: `/config%2Fapps` and `/%63onfig/apps` both decode
+    to `/config/apps`; the first is not routed (404), the second is served -/
+theorem route_is_decided_on_the_escaped_path :
+    parseTarget tEncSep = some (wpApps, tEncSep) ∧ wireRoute tEncSep = .none ∧
+    parseTarget tEncFirst = some (wpApps, tEncFirst) ∧ wireRoute tEncFirst = .config ∧ route wpApps = .config := by
+  decide
+
+/-- **encoded dots are not cleaned away**: the mux cleans the escaped path, so `%2e%2e` reaches
+    the handler as a key named `..`, whereas the literal spelling is redirected -/
+theorem encoded_dots_are_a_key :
+    parseTarget tEncDots = some (pDots, tEncDots) ∧ wireRoute tEncDots = .config ∧ route pDots = .redirect ∧
+    (wireServe yesEnv (wReq .get [] .empty) tEncDots slashState).2 = .served (.fail (.access .traversal)) := by
+  decide
+
+example : parseTarget tBadEsc = none := by decide
+example : wireServe yesEnv (wReq .put [] (.val .null)) tBadEsc slashState = (slashState, .badRequest) :=
+  wire_unparsable_target_changes_nothing _ _ _ (by decide)
+example : unescapePath (escapePath [47, 107, 32, 107, 37, 63]) = some [47, 107, 32, 107, 37, 63] := (every_path_has_a_spelling _).1
+-- wire_rejected_changes_nothing: a PUT with an undecodable body to an encoded spelling
+example : (wireServe yesEnv (wReq .put [] .bad) tEncFirst slashState).2.rejected = true := by decide
+example : underConfig wpApps := ⟨[[97, 112, 112, 115]], by decide⟩
+example : wireServe yesEnv (wReq .get [] .empty) tEncFirst slashState = wireServe yesEnv (wReq .get [] .empty) wpApps slashState :=
+  wire_spelling_does_not_matter _ _ _ (p := wpApps) (e₁ := tEncFirst) (e₂ := wpApps) (by decide) (by decide) (by decide) (by decide)
 
 end CaddyModel.C12
